@@ -65,6 +65,7 @@ type ExploreStats struct {
 	Intrinsics   map[string]int
 	Solver       map[string]smt.Stats
 	Samples      []map[string]any
+	CleanSamples []Violation // sampled paths without failing assertion, with a model: replayed natively to validate the translation
 	Wall         time.Duration
 	Terms        int
 	PathBudgetHit bool
@@ -177,6 +178,17 @@ func Explore(prog *ssa.Program, pkg *ssa.Package, fn *ssa.Function, opts Explore
 			}
 			if len(st.Samples) < opts.SampleN && (res.Abort == "" || res.Abort == "done") {
 				st.Samples = append(st.Samples, sampleOf(res))
+				if res.Model != nil {
+					clean := true
+					for _, ev := range res.Events {
+						if ev.Kind == "assert-fail" || ev.Kind == "known" || ev.Kind == "panic" || ev.Kind == "assert-unknown" {
+							clean = false
+						}
+					}
+					if clean {
+						st.CleanSamples = append(st.CleanSamples, Violation{Harness: opts.Harness, Prefix: res.Prefix, Inputs: res.Inputs, Model: res.Model})
+					}
+				}
 			}
 			for _, f := range forks {
 				work = append(work, workItem{f})
